@@ -78,7 +78,7 @@ func buildSched(dir string) (bin string, points int, err error) {
 }
 
 func runC19(r *ev.Run) {
-	r.Rule = "sequential: every column list of length <=3 over {*, each column, rowid, an unknown name} on T1 (rowid alias, short rows, overflow) and T2 (WITHOUT ROWID) through database/sql vs the native Select; non-SELECT / unknown table / unknown column errors; a fault at every page read k of a query must surface through Next or Close, never as a short result; pool histories: every sequence of <=5 (6 thorough) database/sql operations on one pool over {open a result set on t1 / t2 (at most two open at once), read one row from open set i, drain+close set i, close set i, four kinds of failing query, Exec, Prepare+Close}: every result set delivers exactly the native rows (a prefix when closed early), failing statements fail; prepared-statement histories: every sequence of <=5 (6 thorough) steps over {prepare SELECT * / SELECT v, id; run a prepared statement; close it; another connection adds a column, inserts, drops a column, drops and recreates the table}: every run returns the columns and rows the native API returns at that moment; close after every k rows and cancel after every k rows: a 2 minute hang detector around Next/Close, goroutine count returns to the baseline and /proc/locks shows the lock gone. interleavings: driver.go instrumented with a scheduling point before every statement (and before every deferred call), run inside a testing/synctest bubble under a scheduler that resumes one goroutine at a time (enabled = parked at a scheduling point; blocked in a real channel operation or WaitGroup.Wait = disabled; a select with several clauses is rewritten so that the clause tried first is a choice of the explorer, costing one deviation when it is not source order); participants: consumer (Query, Next x j, Close), canceller, the producer goroutine; scenarios: close after every j, drain, cancel racing, fault at every page read; every schedule with <=2 preemptions (3 thorough); oracle per schedule: rows are a prefix of the native rows, a fault never turns into io.EOF, no deadlock, no goroutine left, after Close returns the producer neither holds the lock nor reads pages. non-trivial = schedules with at least one preemption / sequential cases that stop early or hit a fault"
+	r.Rule = "sequential: every column list of length <=3 over {*, each column, rowid, an unknown name} on T1 (rowid alias, short rows, overflow) and T2 (WITHOUT ROWID) through database/sql vs the native Select; non-SELECT / unknown table / unknown column errors; a fault at every page read k of a query must surface through Next or Close, never as a short result; pool histories: every sequence of <=5 (6 thorough) database/sql operations on one pool (sequences one step shorter also on one pinned sql.Conn and inside one sql.Tx) over {open a result set on t1 / t2 (at most two open at once), read one row from open set i, drain+close set i, close set i, four kinds of failing query, Exec, Prepare+Close}: every result set delivers exactly the native rows (a prefix when closed early), failing statements fail; prepared-statement histories: every sequence of <=5 (6 thorough) steps over {prepare SELECT * / SELECT v, id; run a prepared statement; close it; another connection adds a column, inserts, drops a column, drops and recreates the table}: every run returns the columns and rows the native API returns at that moment; close after every k rows and cancel after every k rows: a 2 minute hang detector around Next/Close, goroutine count returns to the baseline and /proc/locks shows the lock gone. interleavings: driver.go instrumented with a scheduling point before every statement (and before every deferred call), run inside a testing/synctest bubble under a scheduler that resumes one goroutine at a time (enabled = parked at a scheduling point; blocked in a real channel operation or WaitGroup.Wait = disabled; a select with several clauses is rewritten so that the clause tried first is a choice of the explorer, costing one deviation when it is not source order); participants: consumer (Query, Next x j, Close), canceller, the producer goroutine; scenarios: close after every j, drain, cancel racing, fault at every page read; every schedule with <=2 preemptions (3 thorough); oracle per schedule: rows are a prefix of the native rows, a fault never turns into io.EOF, no deadlock, no goroutine left, after Close returns the producer neither holds the lock nor reads pages. non-trivial = schedules with at least one preemption / sequential cases that stop early or hit a fault"
 	c19Sequential(r)
 	zooRun(r, "C19")
 	poolHistories(r, "C19")
